@@ -127,16 +127,24 @@ priority: 30
 RBAD = '''[Coffee]
 category: Food
 '''
+# The CSV files carry the same NUMBER of rules and the same merchant NAMES, in the same order, as R1 resp. R2 (the natural case: the
+# legacy file a .rules file was once migrated from, edited since): whatever they have in common with a rule set loaded earlier,
+# they are classified by what THEY say.
 K1 = '''Pattern,Merchant,Category,Subcategory,Tags
 # legacy rules (the first one only tags, with a plain lower-case tag, and matches every transaction of the world: whatever a
 # later matching rule adds for one transaction must not stay with this rule for the next)
-\\d\\d,Numbered,,,num
-ALFA,Alfa Csv,CsvFood,One,k1
-CHARLIE[amount>20],Charlie Csv,CsvShop,One,
+\\d\\d,Coffee,,,num
+ALFA,Large,CsvFood,One,k1
+ZZZQ1,Ach,CsvNever,One,
+CHARLIE[amount>20],Charlie,CsvShop,One,
+ZZZQ2,Ordered,CsvNever,Two,
 '''
 K2 = '''Pattern,Merchant,Category,Subcategory,Tags
-CHARLIE,Charlie Two,CsvTwo,Two,k2|legacy
-APLPAY\\s+ALFA,Alfa Two,CsvTwo,Two,
+CHARLIE,Coffee,CsvTwo,Two,k2|legacy
+APLPAY\\s+ALFA,Large,CsvTwo,Two,
+ZZZQ3,Charlie,CsvNever,Two,
+ZZZQ4,Apple,CsvNever,Two,
+ZZZQ5,Hits,CsvNever,Two,
 '''
 CONTENT = {'R1': R1, 'R2': R2, 'R3': R3, 'R4': R4, 'RBAD': RBAD, 'K1': K1, 'K2': K2}
 MISSING = {'RMISSING', 'KMISSING'}
